@@ -11,7 +11,7 @@ FUNCTIONS = ['mofun.mofun.find_pattern_in_structure', 'mofun.mofun._get_position
              'mofun.helpers.atoms_of_type', 'mofun.helpers.atoms_by_type_dict']
 BOUNDS = {'quick': '12 planted structures (<=12 atoms; 1-3 copies + mirror/near-miss/stretched/distractor decoys; 13 listed poses '
                    'incl. antiparallel and near-(anti)parallel), 3 orthorhombic + 5 triclinic cells (positive, negative, mixed tilt, '
-                   'arbitrary orientation), one symbolic fractional shift axis in [0,1) per instance (all face crossings), '
+                   'arbitrary orientation), one symbolic fractional shift axis in [0,1) per instance (all face crossings), one edge and one corner crossing with two/three symbolic axes restricted to the crossing window, axis world (all x-coordinates, cell width and tolerance symbolic, 2 atoms), '
                    'symbolic random.choice, one instance with symbolic atol in [0.01,0.2]; window lemma: 1 atom, fully symbolic',
           'thorough': 'as quick plus pairs of symbolic shift axes (edge crossings), symbolic atol on 4 structures, seeded other-axis shifts'}
 OUTSIDE = ['poses not in the list (rotations go through arccos/sin/cos: no SMT theory decides them)', 'fully symbolic 3-D coordinates',
